@@ -53,6 +53,7 @@ def run_bx(c, repo, workdir, tier):
         env = dict(os.environ)
         env.update({"CARGO_NET_OFFLINE": "true", "CARGO_TARGET_DIR": os.path.join(CACHE, "bx-target", "shared"),
                     "VERIF_BX_DEPTH": str(c.get("depth_thorough" if tier == "thorough" else "depth_quick", c.get("depth", 4)))})
+        env.update(c.get("env", {}))
         cmd = ["cargo", "test", "--offline", "-p", pkg, "--lib", modname, "--", "--nocapture", "--test-threads", "1"]
         comp["cmd"] = " ".join(cmd)
         tmo = c.get("timeout", 900 if tier == "quick" else 3600)
